@@ -36,33 +36,45 @@ Theorem C13_agree_elements : forall (s : list N) eg ed, kb_lower s = false ->
 Proof. exact scanners_agree. Qed.
 Print Assumptions C13_agree_elements.
 
-(* ---- one interpretation, classification.
-   Full statement (NOT proved): outside the known findings the generator's test on the raw text equals the
-   decoder's zoned_decimal on every accepted picture. *)
-Definition C13_agree_class_full : Prop := forall (s : list N) r, known_bad s = false ->
+(* ---- one interpretation, classification: outside the known findings the generator's test on the raw text
+        equals the decoder's zoned_decimal on every accepted picture ---- *)
+Theorem C13_agree_class_full : forall (s : list N) r, known_bad s = false ->
   dec_parse s = Some (Ok r) -> gen_numeric s = p_zoned r.
+Proof. exact agree_class. Qed.
+Print Assumptions C13_agree_class_full.
 
-(* Proved half: the generator's classification is the specification's (only S V P 9 denoted) for every picture
-   string outside the known findings.  The other half, p_zoned r = numeric v, is checked case by case by the
-   judge (summary_eqb in Judge/JC13.v) but is not a theorem. *)
+(* the two halves, each against the specification: only S V P 9 denoted *)
 Theorem C13_agree_class_partial : forall (s : list N) v, known_bad s = false ->
   sp_parse s = Some v -> gen_numeric s = numeric v.
 Proof. exact gen_class. Qed.
 Print Assumptions C13_agree_class_partial.
 
-(* ---- repeat-count equivalence.
-   Full statement (NOT proved): the expansion e of an accepted picture s is accepted too and has the same size,
-   sign, integer and fraction digit counts and class. *)
-Definition C13_repeat_full : Prop := forall (s e : list N) r, known_bad s = false ->
+(* the decoder reads what the specification reads: size, integer and fraction digit counts, class *)
+Theorem C13_decoder_summary : forall (s : list N) r v, known_bad s = false ->
+  dec_parse s = Some (Ok r) -> sp_parse s = Some v ->
+  p_size r = positions v /\ length (g_int (p_groups r)) = int_digits v /\
+  length (g_frac (p_groups r)) = frac_digits v /\ p_zoned r = numeric v.
+Proof. exact dec_summary. Qed.
+Print Assumptions C13_decoder_summary.
+
+(* ---- repeat-count equivalence: the expansion e of an accepted picture s is accepted too and has the same size,
+        sign, integer and fraction digit counts and class ---- *)
+Theorem C13_repeat_full : forall (s e : list N) r, known_bad s = false ->
   sp_expand s = Some e -> dec_parse s = Some (Ok r) ->
   exists r', dec_parse e = Some (Ok r') /\ p_size r' = p_size r /\
     g_sign (p_groups r') = g_sign (p_groups r) /\
     length (g_int (p_groups r')) = length (g_int (p_groups r)) /\
     length (g_frac (p_groups r')) = length (g_frac (p_groups r)) /\ p_zoned r' = p_zoned r.
+Proof. exact repeat_full. Qed.
+Print Assumptions C13_repeat_full.
 
-(* Proved part: when the expansion is itself outside the known findings and accepted, it has the same size, and
-   it denotes the same thing (it is its own expansion: same positions, sign, digit counts and class in the
-   specification's reading). *)
+(* the expansion stays outside the known findings and is its own expansion *)
+Theorem C13_repeat_expansion_clean : forall (s e : list N) r, known_bad s = false ->
+  sp_expand s = Some e -> dec_parse s = Some (Ok r) -> known_bad e = false /\ sp_expand e = Some e.
+Proof. exact expansion_not_bad. Qed.
+Print Assumptions C13_repeat_expansion_clean.
+
+(* (kept) the earlier conditional form *)
 Theorem C13_repeat_partial : forall (s e : list N) r r', known_bad s = false -> known_bad e = false ->
   sp_expand s = Some e -> dec_parse s = Some (Ok r) -> dec_parse e = Some (Ok r') ->
   p_size r' = p_size r /\ sp_parse e = sp_parse s.
